@@ -280,8 +280,11 @@ def datetime_get(string):
     if isinstance(string, dt.datetime):
         # Drop sub-seconds and time zone as the format does. Do not go through
         # strftime: its "%Y" is not zero padded on every platform and years
-        # before 1000 could then not be parsed back.
-        return string.replace(microsecond=0, tzinfo=None)
+        # before 1000 could then not be parsed back. Build the datetime from
+        # the fields of the format: 'replace' hands back an instance of the
+        # class of its argument, which may be a subclass of datetime.
+        return dt.datetime(string.year, string.month, string.day,
+                           string.hour, string.minute, string.second)
 
     return dt.datetime.strptime(string, FORMAT_DATETIME)
 
